@@ -20,8 +20,11 @@ CONSTANTS
   Kinds = {"path", "pid", "thr"}
   Keys = {1, 2}
   SrcOpts <- Opts_plain
+  EvKinds = {"ps"}
   MaxBatch = 2
   Errnos = {}
+  TbVals = {}
+  TickVals = {}
   Targets = {"A"}
   AutoVals = {TRUE}
   Senders = {"A"}
